@@ -57,6 +57,12 @@ class TaggedStop(StopIteration):
         self.tag = tag
 
 
+def tagged_generator_exit(tag_):
+    exc = GeneratorExit(repr(tag_))
+    exc.tag = tag_
+    return exc
+
+
 class FalsyTagged(Tagged):
     """An exception object that tests false (it has a length): an exception all the same"""
 
@@ -145,7 +151,8 @@ def gen_entries(ch, n):
 class Env:
     """One execution's managers: log, counters"""
 
-    def __init__(self, sim, who, exc_type=Tagged):
+    def __init__(self, sim, who, exc_type=Tagged, block_type=None):
+        self.block_type = block_type or exc_type
         self.sim = sim
         self.who = who
         self.log = []
@@ -321,12 +328,12 @@ async def run_program_stack(entries, env, block_raises, res, ambient=False):
                 await register(stack, e, obj)
             env.log.append(("body",))
             if block_raises:
-                raise env.exc_type("block")
+                raise env.block_type("block")
 
     try:
         await in_ambient(ambient, go)
         res.append(("suppressed",) if block_raises else ("normal",))
-    except Tagged as err:
+    except (Tagged, GeneratorExit) as err:
         res.append(("raised", err.tag))
     except Exception as err:
         res.append(("raised", type(err).__name__))
@@ -338,13 +345,13 @@ async def run_program_nested(entries, env, block_raises, res, ambient=False):
     async def body():
         env.log.append(("body",))
         if block_raises:
-            raise env.exc_type("block")
+            raise env.block_type("block")
 
     try:
         await in_ambient(ambient, lambda: nested(entries, objs, 0, body))
         # reaching here: completed normally or an exception was suppressed on the way
         res.append(("completed",))
-    except Tagged as err:
+    except (Tagged, GeneratorExit) as err:
         res.append(("raised", err.tag))
     except Exception as err:
         res.append(("raised", type(err).__name__))
@@ -357,6 +364,7 @@ def gen(ch):
     n = ch.draw(5)
     sc.entries = gen_entries(ch, n)
     sc.block_raises = ch.chance(1, 2)
+    sc.block_genexit = ch.chance(1, 8)  # the block ends with exactly GeneratorExit (tagged) instead of an Exception
     sc.ambient = ch.chance(1, 3)   # everything happens while the caller handles an unrelated exception
     sc.falsy_exc = ch.chance(1, 4)  # all exceptions involved test false
     if sc.mode == "history":
@@ -439,12 +447,12 @@ async def run_history(sc, env, res):
             env.log.append(("mark", "leave"))
             env.current_stack = stack
             if sc.block_raises:
-                raise env.exc_type("block")
+                raise env.block_type("block")
 
     out_tag = None
     try:
         await in_ambient(sc.ambient, block)
-    except Tagged as err:
+    except (Tagged, GeneratorExit) as err:
         out_tag = err.tag
         res.append(("raised", err.tag))
     except RuntimeError:
@@ -493,7 +501,8 @@ def execute(st, ctx):
     sim = new_sim(st, interrupts=False)
     set_interrupts(sim, (0, 0, 5, 2)[sc.interrupt])
     exc_type = FalsyTagged if sc.falsy_exc else Tagged
-    env_a = Env(sim, "stack", exc_type)
+    block_type = tagged_generator_exit if sc.block_genexit else None
+    env_a = Env(sim, "stack", exc_type, block_type)
     res_a, res_r = [], []
     behaves = [e.behave for e in sc.entries]
     kinds = [e.kind for e in sc.entries]
@@ -510,7 +519,7 @@ def execute(st, ctx):
         return d
 
     if sc.mode == "program":
-        env_r = Env(sim, "nested", exc_type)
+        env_r = Env(sim, "nested", exc_type, block_type)
         sim.spawn(run_program_stack(sc.entries, env_a, sc.block_raises, res_a, sc.ambient))
         sim.spawn(run_program_nested(sc.entries, env_r, sc.block_raises, res_r, sc.ambient))
         run_sim(sim)
